@@ -178,7 +178,29 @@ type callInfo struct {
 	Cmps  int
 }
 
+// intent mode (VERIF_INTENT=<file>): the call about to be made is written to a side file first, so that a
+// call that kills the process (stack overflow, fatal runtime error) can still be named (C17)
+var intentF *os.File
+
+func startIntent() {
+	if p := os.Getenv("VERIF_INTENT"); p != "" {
+		f, err := os.OpenFile(p, os.O_CREATE|os.O_RDWR|os.O_TRUNC, 0o644)
+		if err == nil {
+			intentF = f
+		}
+	}
+}
+
 func invoke(desc Ev, f func()) (ci callInfo) {
+	if intentF != nil {
+		if b, err := json.Marshal(desc); err == nil {
+			intentF.Truncate(0)
+			intentF.WriteAt(b, 0)
+			if traceW != nil {
+				traceW.Flush()
+			}
+		}
+	}
 	before := capSize()
 	c0 := cmpCalls()
 	wdCurrent.Store(desc)
